@@ -70,7 +70,7 @@ pub fn property() -> Property {
             Box::new(Sub {
                 name: "validity",
                 rule: "all names from DecoderImplementation::value_variants() x generated (H, LLR, limit): H 1..=8 x 2..=14 (thorough sub-check 'large' up to 40x120) with every row weight >= 2 in six classes (sparse, one dense row, duplicate rows, columns shared by all rows = high degree, medium, any); LLR vectors by class (free components incl. the special catalogue: +-0, subnormal, 1e-30, 1e30, 8-bit rounding boundaries +-1ulp, 12.5, 14.5, 15.875; noisy codeword of H from an own null-space basis; exact codeword; all-special; punctured zero block; extremes); limit in {0,1,2,3,5,10,30,200}; oracle = own syndrome over the returned word + the iteration-count clauses; non-trivial = sign pattern not a codeword and limit >= 1; inner evaluations = decodes",
-                cases: |t| t.pick(30_000, 1_000_000),
+                cases: |t| t.pick(100_000, 3_000_000),
                 strategy: |_| dec_case(8, 14),
                 check,
                 health: &[("converged-after>=1", 0.20), ("failed-at-limit>=1", 0.20), ("zero-iteration", 0.05), ("limit-0", 0.05)],
@@ -78,7 +78,7 @@ pub fn property() -> Property {
             Box::new(Sub {
                 name: "large",
                 rule: "same oracle on matrices up to 40 x 120",
-                cases: |t| t.pick(300, 20_000),
+                cases: |t| t.pick(1_500, 40_000),
                 strategy: |_| dec_case(40, 120),
                 check,
                 health: &[],
